@@ -116,6 +116,13 @@ impl Range {
                     return Err(error)
                 }
                 let num_usize : u64 = boxed_parse.unwrap();
+                if num_usize > filelength {
+                    let error = Error {
+                        status_code_reason_phrase: STATUS_CODE_REASON_PHRASE.n416_range_not_satisfiable,
+                        message: Range::ERROR_START_IS_BIGGER_THAN_FILESIZE_CONTENT_RANGE.to_string()
+                    };
+                    return Err(error)
+                }
                 range.start = filelength - num_usize;
                 range.end = filelength;
             }
